@@ -87,7 +87,8 @@ REGISTRY = {
                 "for the delivered-token rule only (DESIGN 5, C04)"]},
     "C05": {"parts": [{"module": "props.split", "units": ["split", "make_region", "blocks_lemma", "region_split"]},
                       {"module": "props.regions", "units": ["post_init", "concat_lemma", "meta"]},
-                      {"module": "props.readers", "units": ["fixed", "audioreader"]}],
+                      {"module": "props.readers", "units": ["fixed", "audioreader"]},
+                      {"module": "props.sources", "units": ["buffer_read", "file_read", "file_open"], "include_all": True}],
             "witness": "api", "assumptions": SPLIT_ASSUME + [
                 "the last sentence of C05 (regions are the tokenizer segmentation of the per-window decisions) is the "
                 "composition of the split wiring proved here with C01-C04 (tokenizer) and C07 (validator) by modularity",
@@ -116,7 +117,7 @@ REGISTRY = {
                 "sample widths are case-split over {1, 2, 4, other}; channel count and window length are symbolic"]},
     "C08": {"parts": [{"module": "props.tokenizer", "units": ["lemmas", "process", "post_process", "iter_tokens", "tokenize"]},
                       {"module": "props.split", "units": ["split"]},
-                      {"module": "props.readers", "units": ["fixed", "overlap_iter", "overlap_misc"]}],
+                      {"module": "props.readers", "units": ["fixed", "overlap_iter", "overlap_misc", "limiter"], "include_all": True}],
             "witness": "tok", "assumptions": TOK_ASSUME + ["split(): the AudioReader / tokenizer constructors are used by contract"]},
     "C09": {"parts": [{"module": "props.split", "units": ["split", "region_split"]},
                       {"module": "props.iofuncs", "units": ["guess_format", "get_audio_parameters", "get_audio_source", "from_file", "loaders"]},
@@ -129,7 +130,8 @@ REGISTRY = {
     "C18": {"parts": [{"module": "props.iofuncs", "units": ["guess_format", "get_audio_parameters", "to_file", "region_save", "from_file",
                                                               "loaders", "read_offline", "load"]},
                       {"module": "props.sources", "units": ["buffer_read", "file_read", "file_open"], "include_all": True},
-                      {"module": "props.regions", "units": ["post_init"]}],
+                      {"module": "props.regions", "units": ["post_init"]},
+                      {"module": "props.validator", "units": ["to_array", "numpy_export"]}],
             "witness": "api", "assumptions": IO_ASSUME + [
                 "numpy export: element [c][i] is the signed little-endian value of channel c of sample i -- proved as the "
                 "to_array contract in C07 (numpy axiomatised)"]},
